@@ -71,8 +71,9 @@ def gSeq (D : Decoder) (root adds : Members) (tg : Option Nat) (fuel : Nat) (bs 
         | .ok fs =>
           if adds.length = 0 then finishMembers fs c1 ood1
           else
-            match retry (gPass D adds root.length fuel) (adds.length + 1)
-                    (List.replicate adds.length none) c1 with
+            match (if ood1 then .ok (List.replicate adds.length none, c1, true)
+                   else retry (gPass D adds root.length fuel) (adds.length + 1)
+                     (List.replicate adds.length none) c1) with
             | .error e => .error e
             | .ok (slots2, c2, ood2) =>
               match fill adds slots2 true with
